@@ -209,6 +209,12 @@ def judge(ctx, templates, bind, strict, via, prefix="", quiet=False):
                   tag=None if prefix else "parta")
 
 
+# Part D (renderings overlapping in threads) is measured and reported in the evidence but NOT judged: the statement quantifies over
+# templates and contexts, the renderer has no lock and promises no thread safety (lead's triage, DESIGN.md §8.3); instance state that
+# leaks between renderings is judged through the sequential / re-entrant sessions of Part C.
+JUDGE_OVERLAP = False
+
+
 def assess(ctx, templates, filters, res, bind, strict, via, prefix="", quiet=False, tag=None, extra_witness=None,
            stats_out=None):
     """Judge one rendering result `res` of (templates, bind, strict) against the single-pass expansion.
@@ -238,7 +244,10 @@ def assess(ctx, templates, filters, res, bind, strict, via, prefix="", quiet=Fal
         if not quiet:
             if extra_witness is not None:
                 extra.update(extra_witness())
-            ctx.violation(prefix + mech, what, witness(templates, bind, strict, via, **extra))
+            if prefix == "overlap:" and not JUDGE_OVERLAP:
+                ctx.count("recorded_not_judged:" + prefix + mech)
+            else:
+                ctx.violation(prefix + mech, what, witness(templates, bind, strict, via, **extra))
         return prefix + mech
 
     if res[0] == "raise":
@@ -789,16 +798,22 @@ def case_D(ctx, n):
     desc = {"threads": [{"context": binds[i], "vias": vias[i]} for i in range(nthreads)], "policy": plabel,
             "choices": sc.choices[:300]}
     if sc.deadlock:
-        ctx.violation("overlap:deadlock", "overlapping renderings deadlocked: %s" % sc.deadlock,
-                      witness(templates, binds[0], strict, vias[0][0], **desc))
+        if JUDGE_OVERLAP:
+            ctx.violation("overlap:deadlock", "overlapping renderings deadlocked: %s" % sc.deadlock,
+                          witness(templates, binds[0], strict, vias[0][0], **desc))
+        else:
+            ctx.count("recorded_not_judged:overlap:deadlock")
         return
     if sc.switch_while_other_inside:
         ctx.count("partd_schedules_interleaved")
     ctx.count("partd_yield_points", sc.step)
     for i in range(nthreads):
         if sc.errors[i] is not None:
-            ctx.violation("overlap:thread-died", "a rendering thread died with %r" % (sc.errors[i],),
-                          witness(templates, binds[i], strict, vias[i][0], **desc))
+            if JUDGE_OVERLAP:
+                ctx.violation("overlap:thread-died", "a rendering thread died with %r" % (sc.errors[i],),
+                              witness(templates, binds[i], strict, vias[i][0], **desc))
+            else:
+                ctx.count("recorded_not_judged:overlap:thread-died")
             continue
         for j, res in enumerate(sc.results[i]):
             ctx.count("partd_renders")
